@@ -97,14 +97,15 @@ func (fr *frame) execCall0(instr ssa.Value, c *ssa.CallCommon, st *State, env ma
 			args = append(args, fr.operand(a, env))
 			argTypes = append(argTypes, a.Type())
 		}
-		if vc.safety {
-			vc.oblige("safety", fmt.Sprintf("%s#safety:nil-invoke(%s.%s)", shortFn(fr.fn), ifaceShort(c.Value.Type()), c.Method.Name()), pos,
-				"method call on nil interface", alive, "(not (= (itag "+recv.t+") 0))", []string{"C14"})
-		}
-		vc.assume(alive, "(not (= (itag "+recv.t+") 0))")
+		vc.safetyCheck(fmt.Sprintf("%s#safety:nil-invoke(%s.%s)", shortFn(fr.fn), ifaceShort(c.Value.Type()), c.Method.Name()), pos,
+			"method call on nil interface", alive, "(not (= (itag "+recv.t+") 0))", st)
 		keys := invokeKeys(c)
 		for _, k := range keys {
 			if ct := vc.eng.specs.contracts[k]; ct != nil {
+				if ct.Havoc {
+					fr.panicsUnless(ct, k, c.Method.Type().(*types.Signature), args, argTypes, st, alive, pos, vc.eng.contractPkg(k, c.Method.Pkg()))
+					break
+				}
 				return fr.applyContract(ct, k, c.Method.Type().(*types.Signature), args, argTypes, st, alive, pos, vc.eng.contractPkg(k, c.Method.Pkg()))
 			}
 		}
@@ -213,6 +214,10 @@ func (fr *frame) callStatic(fn *ssa.Function, args []Val, argTypes []types.Type,
 		if !ct.Trusted && !vc.eng.mayReturnSentinel(fn) {
 			vc.assumeNotSentinel(rv, fn.Signature, al)
 		}
+		if ct.Trusted && !hasBody0(fn) && !takesError(fn.Signature) {
+			// A-ERR: a function of another module that is not handed an error cannot produce orbiter's sentinel
+			vc.assumeNotSentinel(rv, fn.Signature, al)
+		}
 		return rv, al
 	}
 	if hasBody {
@@ -222,6 +227,9 @@ func (fr *frame) callStatic(fn *ssa.Function, args []Val, argTypes []types.Type,
 			vc.note("recursive call to %s havocked", shortFn(fn))
 		} else {
 			vc.inlinedFns[shortFn(fn)] = true
+			if ct != nil {
+				fr.assumeInvs(ct, fn.Signature, args, argTypes, st, alive, vc.eng.pkgOfFn(fn))
+			}
 			res, out, retReach := vc.execFunc(fn, args, st, alive, fr.depth+1, nil)
 			fr.setState(st, out)
 			return tupleOf(res, fn.Signature.Results().Len()), retReach
@@ -263,6 +271,94 @@ func (vc *VC) onStack(fn *ssa.Function) bool {
 	return false
 }
 
+// hasBody0: the function is part of the repository under verification.
+func hasBody0(fn *ssa.Function) bool {
+	return fn.Pkg != nil && strings.HasPrefix(fn.Pkg.Pkg.Path(), repoMod)
+}
+
+// takesError: some parameter (or the receiver) can carry an error value into the callee.
+func takesError(sig *types.Signature) bool {
+	errT := types.Universe.Lookup("error").Type().Underlying().(*types.Interface)
+	carries := func(t types.Type) bool {
+		t = types.Unalias(t)
+		if p, ok := t.Underlying().(*types.Pointer); ok {
+			t = p.Elem()
+		}
+		if types.Implements(t, errT) || types.Implements(types.NewPointer(t), errT) {
+			return true
+		}
+		switch u := t.Underlying().(type) {
+		case *types.Interface:
+			return true // an interface value may hold an error
+		case *types.Slice:
+			_, isIface := u.Elem().Underlying().(*types.Interface)
+			return isIface
+		}
+		return false
+	}
+	if r := sig.Recv(); r != nil && carries(r.Type()) {
+		return true
+	}
+	for i := 0; i < sig.Params().Len(); i++ {
+		if carries(sig.Params().At(i).Type()) {
+			return true
+		}
+	}
+	return false
+}
+
+// panicsUnless checks only the panics-unless clauses of a trusted "havoc" spec.
+func (fr *frame) panicsUnless(ct *Contract, key string, sig *types.Signature, args []Val, argTypes []types.Type, st *State, alive, pos string, cpkg *ssa.Package) {
+	vc := fr.vc
+	vc.usedSpecs[key+" ["+ct.Src+"]"] = true
+	te := vc.newTEnv(st, st, cpkg)
+	for i, n := range ct.Params {
+		if i < len(args) && i < len(argTypes) {
+			te.bind(n, args[i], argTypes[i])
+		}
+	}
+	short := strings.ReplaceAll(key, repoMod+"/", "")
+	for _, cl := range ct.PanicsUnless {
+		vc.safetyCheck(fmt.Sprintf("%s#safety:panics-unless(%s)", shortFn(fr.fn), short), pos, "panics-unless "+cl.Text+" ["+cl.Src+"]", alive, te.formula(cl.E), st)
+	}
+}
+
+// assumeInvs: an inlined callee still has its object invariants ([inv] preconditions: facts established
+// by the constructor of the receiver, assumed and never re-proved per call).
+func (fr *frame) assumeInvs(ct *Contract, sig *types.Signature, args []Val, argTypes []types.Type, st *State, alive string, cpkg *ssa.Package) {
+	vc := fr.vc
+	any := false
+	for _, cl := range ct.Requires {
+		if cl.inSlice(vc.slice) && cl.isInv() {
+			any = true
+		}
+	}
+	if !any {
+		return
+	}
+	te := vc.newTEnv(st, st, cpkg)
+	var ptypes []types.Type
+	if sig.Recv() != nil && len(argTypes) == sig.Params().Len()+1 {
+		ptypes = append(ptypes, argTypes[0])
+	}
+	for i := 0; i < sig.Params().Len(); i++ {
+		ptypes = append(ptypes, sig.Params().At(i).Type())
+	}
+	if len(ptypes) != len(args) {
+		ptypes = argTypes
+	}
+	for i, n := range ct.Params {
+		if i < len(args) && i < len(ptypes) {
+			te.bind(n, args[i], ptypes[i])
+		}
+	}
+	for _, cl := range ct.Requires {
+		if cl.inSlice(vc.slice) && cl.isInv() {
+			vc.assume(alive, te.formula(cl.E))
+		}
+	}
+}
+
 func (vc *VC) contractApplies(ct *Contract) bool {
 	if ct.NoInline || ct.PureVerdict != "" || ct.PureResult != "" {
 		return true
@@ -293,6 +389,9 @@ func (vc *VC) havocAllState(st *State) {
 // memory reachable through pointer arguments to transparent structs is havocked (one level).
 func (fr *frame) havocCall(sig *types.Signature, args []Val, argTypes []types.Type, st *State, alive, name string) Val {
 	vc := fr.vc
+	if c := vc.catching(); c != nil && vc.quiet == 0 {
+		defer func() { c.panicAt(alive, st) }()
+	}
 	reg := vc.eng.types
 	for i, a := range args {
 		if i >= len(argTypes) {
@@ -418,10 +517,7 @@ func (fr *frame) applyContract(ct *Contract, key string, sig *types.Signature, a
 	}
 	for _, cl := range ct.PanicsUnless {
 		f := te.formula(cl.E)
-		if vc.safety {
-			vc.oblige("safety", fmt.Sprintf("%s#safety:panics-unless(%s)", shortFn(fr.fn), short), pos, "panics-unless "+cl.Text+" ["+cl.Src+"]", alive, f, []string{"C14"})
-		}
-		vc.assume(alive, f)
+		vc.safetyCheck(fmt.Sprintf("%s#safety:panics-unless(%s)", shortFn(fr.fn), short), pos, "panics-unless "+cl.Text+" ["+cl.Src+"]", alive, f, st)
 	}
 	// havoc modifies
 	for _, m := range ct.Modifies {
@@ -443,6 +539,7 @@ func (fr *frame) applyContract(ct *Contract, key string, sig *types.Signature, a
 	na := vc.define("alloc", sortInt, "(+ "+st.alloc+" "+vc.fresh("nalloc", sortInt)+")")
 	vc.assume("true", "(>= "+na+" "+st.alloc+")")
 	st.alloc = na
+	vc.trackAlloc(na)
 	// results
 	res := sig.Results()
 	var rv Val
@@ -496,10 +593,7 @@ func (fr *frame) execBuiltin(b *ssa.Builtin, c *ssa.CallCommon, args []Val, st *
 	reg := vc.eng.types
 	switch b.Name() {
 	case "ssa:wrapnilchk":
-		if vc.safety {
-			vc.oblige("safety", fmt.Sprintf("%s#safety:nil-deref(value method through nil pointer)", shortFn(fr.fn)), vc.pos(c.Pos()), "nil pointer receiver for value method", alive, "(not (= "+args[0].t+" 0))", []string{"C14"})
-		}
-		vc.assume(alive, "(not (= "+args[0].t+" 0))")
+		vc.safetyCheck(fmt.Sprintf("%s#safety:nil-deref(value method through nil pointer)", shortFn(fr.fn)), vc.pos(c.Pos()), "nil pointer receiver for value method", alive, "(not (= "+args[0].t+" 0))", st)
 		return args[0]
 	case "len":
 		switch t := types.Unalias(c.Args[0].Type()).Underlying().(type) {
@@ -614,6 +708,12 @@ func (fr *frame) execBuiltin(b *ssa.Builtin, c *ssa.CallCommon, args []Val, st *
 		return Val{}
 	case "print", "println":
 		return Val{}
+	case "recover":
+		if n := len(vc.recoverVals); n > 0 {
+			return Val{t: vc.recoverVals[n-1]}
+		}
+		vc.note("recover() outside a recognised deferred closure: nil")
+		return Val{t: "(mkIface 0 0)"}
 	case "min", "max":
 		if len(args) == 2 {
 			op := "<"
